@@ -1,11 +1,12 @@
 import Dcg.Model.Version
+import Dcg.Proofs.KwFlow
 /-
 C19 — output only uses what the chosen target Python version provides.
 `Dcg/Gen/Versions` is regenerated from /repo on every run; `Dcg/Model/Version` is the authored
 (trusted) "first version that provides X" table. Names are `k!` keys (Dcg/Model/Key.lean).
 -/
 namespace Dcg.Props.C19
-open Dcg.Model.Version Dcg.Gen.Versions
+open Dcg.Model.Version Dcg.Gen.Versions Dcg.Model.KwFlow Dcg.Gen.KwSites
 
 def okImp (ver : Nat) (i : Nat × Nat) : Bool := okFor (avail i.1 i.2) ver
 
@@ -80,6 +81,51 @@ theorem has_predicates_match_since :
 theorem guards_present :
     expectedGuards.all (fun g => guardSites.any (fun s => s.2.1 == g.1 && s.2.2 == g.2)) = true := by
   decide +kernel
+
+/-! ### The keyword-only flag -/
+
+/-- kernel-checked on the regenerated site table (every place of the source that gives the keyword-only flag a value,
+forwards it, or writes `kw_only` / `keyword_only` as text — Python and templates): each one is, by the sound abstract
+evaluation, false whenever every read of the flag is false and the target is older than `kwOnlyBound`; the bound is
+the authored first version of `dataclass(kw_only=True)`; the flag does reach a template (the table is not empty of
+what it is about). -/
+theorem kw_only_sites_guarded :
+    sites.all siteOk = true ∧
+    constructSince.lookup (k! "dataclass(kw_only=True)") = some kwOnlyBound ∧
+    predSince (k! "has_kw_only_dataclass") = some kwOnlyBound ∧
+    sites.any (fun s => s.kind == .textTemplate && s.expr == .flag) = true := by decide +kernel
+
+/-- INDUCTIVE STEP of "the flag is false everywhere unless the user asked": at every site (other than a schema's own
+per-field key), in every environment — any valuation of the parts the translator does not understand included — the
+deciding expression can only be true if a read of the flag yields true or the target has keyword-only dataclasses.
+Hence no site turns keyword-only on by itself for a target below 3.10 (a source doing so, e.g. "a member without
+default after inherited defaults", makes `kw_only_sites_guarded` fail). -/
+theorem keyword_only_needs_option_or_target (s : Site) (hs : s ∈ sites) (hk : (s.kind == .fieldKey) = false)
+    (env : Env) (h : eval predSince env s.expr = true) :
+    env.flag = true ∨ kwOnlyBound ≤ env.target := by
+  have hok := List.all_eq_true.mp kw_only_sites_guarded.1 s hs
+  simp only [siteOk, hk, Bool.false_or] at hok
+  exact Dcg.Proofs.KwFlow.safe_true_needs predSince kwOnlyBound env s.expr hok h
+
+/-- non-vacuity: the template site is such a site, and with the option on it does write `(kw_only=True)` -/
+example : ∃ s ∈ sites, (s.kind == .fieldKey) = false ∧
+    eval predSince { flag := true, target := 9, free := fun _ => false } s.expr = true := by
+  refine ⟨(sites.find? (fun s => s.kind == .textTemplate)).getD ⟨0, 0, 0, .fieldKey, .const false⟩, ?_, ?_, ?_⟩ <;>
+    decide +kernel
+
+/-- class-level prediction used by the correspondence campaign: without the option nothing is written for a target
+below the bound, for every output model type -/
+theorem no_class_level_kw_only_unasked :
+    kindFiles.all (fun kf => (List.range kwOnlyBound).all (fun t => !writesClassLevel kf.1 false t)) = true ∧
+    kindFiles.length = 5 := by decide +kernel
+
+/-- REFUTATION kept for the pinned tree (known finding D16-kwonly-field): `kw_only` is one of the dataclass field keys
+that a schema's own entry may set (`--field-include-all-keys`, `--field-extra-keys kw_only`), and nothing ties it to
+the target: `field(kw_only=True)` (3.10) can be emitted for target 3.9. -/
+theorem field_kw_only_unguarded :
+    sites.any (fun s => s.kind == .fieldKey && s.file == k! "model/dataclass.py" &&
+      !safe predSince kwOnlyBound s.expr) = true ∧
+    fieldLevelPossible (k! "dataclasses.dataclass") = true := by decide +kernel
 
 /-! ### Refutations kept for the pinned tree (known finding D16) -/
 
